@@ -5,21 +5,19 @@ From Coq Require Import List ZArith Bool Arith Lia ZifyBool.
 From FJ Require Import Model.Num Model.Tensor Proofs.TensorP.
 Import ListNotations.
 
+Lemma nth_error_skipn' {X} (l : list X) a j : nth_error (skipn a l) j = nth_error l (a + j).
+Proof. revert l; induction a as [|a IH]; intros [|x l]; cbn; auto. now destruct j. Qed.
+Lemma nth_error_firstn' {X} (l : list X) m j : nth_error (firstn m l) j = if j <? m then nth_error l j else None.
+Proof.
+  revert l j; induction m as [|m IH]; intros l j.
+  - cbn. now destruct j.
+  - destruct l as [|x l]; cbn [firstn].
+    + destruct (j <? S m); now destruct j.
+    + destruct j as [|j]; [reflexivity|]. cbn [nth_error]. rewrite IH. reflexivity.
+Qed.
 Lemma nth_error_firstn_skipn {X} (l : list X) a m j :
   nth_error (firstn m (skipn a l)) j = if j <? m then nth_error l (a + j) else None.
-Proof.
-  revert a j l. induction m as [|m IH]; intros a j l.
-  - cbn. now destruct j.
-  - destruct (skipn a l) as [|x r] eqn:E.
-    + cbn. destruct (j <? S m); [|now destruct j].
-      symmetry. apply nth_error_None. assert (length (skipn a l) = 0) by now rewrite E. rewrite skipn_length in H. lia.
-    + cbn [firstn]. destruct j as [|j].
-      * cbn. rewrite Nat.add_0_r. clear IH. revert l E. induction a as [|a IHa]; intros [|y l] E; cbn in *; try discriminate; try congruence.
-        now apply IHa.
-      * cbn [nth_error]. assert (Er : r = skipn (S a) l).
-        { clear IH. revert l E. induction a as [|a IHa]; intros [|y l] E; cbn in *; try discriminate; try congruence. now apply IHa. }
-        rewrite Er, IH. replace (S a + j) with (a + S j) by lia. reflexivity.
-Qed.
+Proof. rewrite nth_error_firstn', nth_error_skipn'. reflexivity. Qed.
 
 Section G.
   Context {A : Type}.
